@@ -3,6 +3,29 @@ use qrlew::data_type::{value::Value, DataType};
 use qrlew::expr::function::Function;
 
 pub fn run() {
+    {
+        use qrlew::data_type::intervals::Intervals;
+        let t1 = DataType::Float(Intervals::from_values([-3.0, -2.0, -1.0, 0.0]));
+        let t2 = DataType::integer_interval(-3, 0);
+        let mut outcomes = std::collections::BTreeMap::new();
+        for _ in 0..200 {
+            let r = crate::common::guarded(|| Function::Modulo.super_image(&[t1.clone(), t2.clone()]));
+            let k = match r { Ok(Ok(t)) => format!("ok {t}"), Ok(Err(e)) => format!("err {e}"), Err(p) => format!("panic {}", p.site()) };
+            *outcomes.entry(k).or_insert(0) += 1;
+        }
+        println!("modulo image outcomes: {:?}", outcomes);
+        let a = DataType::integer_interval(-3, 5);
+        let fl = Function::Floor.super_image(&[a.clone()]).unwrap();
+        println!("floor image {fl} {:?}", fl);
+        let mut outcomes = std::collections::BTreeMap::new();
+        for _ in 0..200 {
+            let r = crate::common::guarded(|| Function::Modulo.super_image(&[fl.clone(), a.clone()]));
+            let k = match r { Ok(Ok(t)) => format!("ok {t}"), Ok(Err(e)) => format!("err {e}"), Err(p) => format!("panic {}", p.site()) };
+            print!("{}", if k.starts_with("ok") { 'o' } else { 'p' });
+            *outcomes.entry(k).or_insert(0) += 1;
+        }
+        println!("\nmodulo(floor) image outcomes: {:?}", outcomes);
+    }
     let cases: Vec<(Function, Vec<DataType>, Vec<Value>)> = vec![
         (Function::Divide, vec![DataType::integer_interval(1, 5), DataType::integer_interval(1, 5)], vec![Value::integer(4), Value::integer(2)]),
         (Function::Divide, vec![DataType::float_interval(1., 5.), DataType::float_interval(1., 5.)], vec![Value::float(4.), Value::float(2.)]),
